@@ -76,6 +76,16 @@ Definition lookup_install (s : store) (n : name) (v : N) (b : V) (now_s : Z) : s
   let s1 := with_m s (upd n (Some (CE v b now_s false)) (m s)) in
   (fst (secret_locked s1 n), [Flush (doc s1)]).
 
+(* ---- the locked part of a lookup flight as a whole (store.go:400-414).  The caller found the name
+   unknown BEFORE it joined or started the flight, so by the time the flight's answer arrives another
+   lookup may have installed the name already: then the existing entry is kept (replacing it would
+   change the value without waking its watchers - the F8 repair) and only the handle is returned. *)
+Definition lookup_finish (s : store) (n : name) (v : N) (b : V) (now_s : Z) : store * list effect :=
+  match entry s n with
+  | Some _ => (fst (secret_locked s n), [])
+  | None => lookup_install s n v b now_s
+  end.
+
 (* ---- watchers (watcher.go:38-63): registration appends under the lock; notify is a non-blocking
    send on a one-slot channel (level trigger); Ready/receive takes the slot *)
 Definition add_watcher (s : store) (n : name) : store * nat := (with_ws s (ws s ++ [W n false]), length (ws s)).
